@@ -29,7 +29,7 @@ ASSUMPTIONS = ["saved graph files are read by the independent readers of vmon/re
                "vertex; numeric php/subsetcard/op/tseitin forms: degrees), not by replaying draws, except where the command draws nothing before "
                "the generator (randkcnf, randkxor, pitfall, shuffle on deterministic bases)"]
 REQUIRED = ["cli_vs_library_compared", "pbgen_compared", "chains_compared", "graphs_read_back", "promise_checks", "rng_replays",
-            "kthlist2pebbling_compared", "output_option_checks", "graph_file_inputs", "save_before_modifiers", "file_reuse_checks"] + ["sub_" + s for s in (
+            "kthlist2pebbling_compared", "output_option_checks", "graph_file_inputs", "save_before_modifiers", "file_reuse_checks", "explicit_seed_zero_runs"] + ["sub_" + s for s in (
                 "and", "or", "true", "false", "bphp", "cliquecoloring", "count", "parity", "cpls", "domset", "ec", "tiling", "matching",
                 "kcolor", "kclique", "kcliquebin", "iso", "subgraph", "ramlb", "op", "tseitin", "peb", "stone", "php", "subsetcard",
                 "pitfall", "ptn", "ram", "rphp", "vdw", "randkcnf", "randkxor", "dimacs")]
@@ -1186,6 +1186,46 @@ def case_output_options(ctx):
         shutil.rmtree(tmp, ignore_errors=True)
 
 
+def case_explicit_seed(ctx, rseed):
+    """--seed S (S = 0 included) together with a graph argument that draws random numbers while the command line is
+    read and a transformation that draws again when the formula is built: the result is what the library gives for the
+    graph that `save` stored -- the family on that graph, then Shuffle started from seed S -- whatever the graph
+    argument consumed and whatever the generator's state was before the call."""
+    r = ctx.rng("c17seed", rseed)
+    tmp = tempfile.mkdtemp(prefix="c17seed-")
+    try:
+        fams = [["kcolor", "3"], ["domset", "2"], ["tseitin", "first"], ["kclique", "3"], ["matching"]]
+        specs = [["gnp", "7", ".5"], ["gnm", "7", "9"], ["gnd", "8", "3"], ["grid", "2", "3", "addedges", "2"],
+                 ["gnp", "6", ".4", "plantclique", "3"], ["complete", "4", "splitedges", "2"]]
+        for S in (0, 1, r.randint(2, 10 ** 6)):
+            for fam in fams:
+                spec = r.choice(specs)
+                out = os.path.join(tmp, "G.kthlist")
+                argv = ["cnfgen", "-q", "--seed", str(S)] + fam + spec + ["save", "kthlist", out, "-T", "shuffle"]
+                label = " ".join(argv).replace(tmp, "<dir>")
+                random.seed(r.randint(0, 10 ** 6))
+                try:
+                    F = cli_formula("cnfgen", argv)
+                except BaseException as e:      # noqa: BLE001
+                    if isinstance(e, KeyboardInterrupt) or type(e).__name__ == "CaseTimeout":
+                        raise
+                    ctx.count("explicit_seed_refused")       # refusals are judged by the commands cases
+                    continue
+                F0 = cli_formula("cnfgen", ["cnfgen", "-q"] + fam + [out])
+                random.seed(S)
+                R_ = lib_transform(F0, ("shuffle",))
+                ctx.count("explicit_seed_runs")
+                if S == 0:
+                    ctx.count("explicit_seed_zero_runs")
+                if (F.number_of_variables(), [list(c) for c in F]) != (R_.number_of_variables(), [list(c) for c in R_]):
+                    ctx.violation("explicit-seed:not-the-library-result-from-that-seed",
+                                  "`%s`: the formula is not Shuffle(%s <graph stored by save>) with the generator started from seed %d"
+                                  % (label, " ".join(fam), S))
+                ctx.judged(("explicit-seed", tuple(fam), tuple(spec), S), nontrivial=True, sample={"command": label})
+    finally:
+        shutil.rmtree(tmp, ignore_errors=True)
+
+
 def workload(tier, seed):
     n = len(commands())
     seeds = [seed * 13 + 1, seed * 13 + 2] if tier == "quick" else [seed * 13 + i for i in range(1, 21)]
@@ -1200,5 +1240,6 @@ def workload(tier, seed):
     for i in range(1 if tier == "quick" else 12):
         yield "option_order", {"rseed": seed * 10 + i}
         yield "compression_specs", {"rseed": seed * 10 + i}
+        yield "explicit_seed", {"rseed": seed * 10 + i}
     for i in range(2 if tier == "quick" else 10):
         yield "file_reuse", {"rseed": seed * 10 + i}
